@@ -12,31 +12,31 @@ def hooks_commits():
 
 CHECKS = {
  "C13": ("memo+sched", "model_checking", "explicit-state exploration of the projection memo tables + stateless preemption-bounded exploration of real OS threads under a controlled (baton) scheduler (+ seed-enumerated Miri schedules and a free-running pass as auxiliaries)",
-         "Histories: every ordered pair (with echo) and every same-sector triple of 480 projection ops on fresh instances, BFS to closure over the memo-table states of small universes, and all ordered pairs/triples of ~40 public calls in fresh OS threads; every result must be bitwise equal to its cold value and every filled slot canonical. Schedules: depth-first enumeration of all interleavings of 2-3 real OS threads (real thread_local!/OnceLock/LazyLock) at the hook points up to a preemption bound, with warm globals in-process and with cold globals in a fresh process per execution; monitors: bitwise results, instance exclusivity, initialisers at most once, deadlock; violating schedules are replayed before being reported. Two auxiliary passes for shared state outside the hook points, reported separately and never used to claim that the property holds: first-touch calls of 2-3 threads under Miri's deterministic scheduler (one reproducible schedule per seed, preemption possible at every basic block), and a free-running pass in fresh processes.",
+         "Histories: every ordered pair (with echo) and every same-sector triple of 480 projection ops on fresh instances, BFS to closure over the memo-table states of small universes, and all ordered pairs/triples of ~40 public calls in fresh OS threads; every result must be bitwise equal to its cold value and every filled slot canonical. Schedules: depth-first enumeration of all interleavings of 2-3 real OS threads (real thread_local!/OnceLock/LazyLock) at the hook points up to a preemption bound, with warm globals in-process and with cold globals in a fresh process per execution; monitors: bitwise results, instance exclusivity, initialisers at most once, deadlock; violating schedules are replayed before being reported. Two auxiliary passes for shared state outside the hook points, reported separately and never used to claim that the property holds: first-touch calls of 2-3 threads under Miri's deterministic scheduler (one reproducible schedule per seed, preemption possible at every basic block), and a free-running pass in fresh processes. Further complete enumerations of finite history families: all ordered pairs of calls of 39+ families on one thread (lookups of whole neighbourhoods spread over faces that miss their first estimate, resolution chains, hierarchy calls incl. refused ones and collision families, Hilbert walks); long histories (a call repeated after exactly 255..65537 identical calls; 70 000 distinct calls with repeats at the table sizes 2^4..2^16); and one fresh process per prelude (43 named first histories: world expansions, 1000 easy lookups, a caller-supplied triangle, 65 600 fine cells, 300 threads, every first-touch op) followed by a fixed battery whose results must be identical bit for bit in all processes.",
          "Switch points only at the hook points (memo reads/stores, entry/exit of forward/inverse, first two accesses per lazy table); memory-ordering effects below that are not explored. loom/shuttle are not used because their coroutine threads would share std thread_local! state.", "5 C13"),
  "C14": ("totality", "exploration", "exhaustive enumeration of structured id / resolution / coordinate classes x every public function in two build profiles, each probe in a resource-limited child process",
-         "Every combination of a catalogue of ~15 k structured 64-bit patterns (every top-6 value x marker position x payload class), 87 resolution classes and 90 coordinate classes with every public function is executed in the release and in the overflow-checked build inside child processes (1 GiB address space, 10 s watchdog): the call must return, out-of-range resolutions must be rejected, results must be canonical ids of the requested resolution, non-cell bit patterns must be rejected or behave exactly as the canonical cell they alias.",
+         "Every combination of a catalogue of ~15 k structured 64-bit patterns (every top-6 value x marker position x payload class), 87 resolution classes and 90 coordinate classes with every public function is executed in the release and in the overflow-checked build inside child processes (1 GiB address space, 10 s watchdog): the call must return, out-of-range resolutions must be rejected, results must be canonical ids of the requested resolution, non-cell bit patterns must be rejected or behave exactly as the canonical cell they alias. Also: runs of 255..2048 consecutive cells (aligned and unaligned) through compact/uncompact, numeric neighbours of the first/last cell of every resolution in lists, 700/70 000 short-lived threads, and calls made from a thread-local destructor during thread shutdown.",
          "Catalogue is structured, not all 2^64 values; calls with honest fan-out above 4^8 are skipped.", "5 C14"),
  "C06": ("golden", "exploration", "exhaustive agreement with a frozen reference table over an enumerated input set",
-         "A table generated once from the reference release (all cells r<=5, digit-pattern families to r=29 covering every face x quintant x resolution, sphere lattice x resolutions 0..29) is compared entry by entry with the current tree: same id wherever the reference answer contained the point with margin, same centre and corner points within 1e-9 deg wherever the reference output was self-consistent.",
+         "A table generated once from the reference release (all cells r<=5, digit-pattern families to r=29 covering every face x quintant x resolution, sphere lattice x resolutions 0..29) is compared entry by entry with the current tree: same id wherever the reference answer contained the point with margin, same centre and corner points within 1e-9 deg wherever the reference output was self-consistent. A second-generation table from the same reference release adds word-aligned ids (low 8..20 curve digits all 0 or all 3), the lattice written with longitudes +-360/+-720 and the centres the reference reports looked up again; a slice of the table is re-evaluated on single fresh threads in descending and jumping resolution order.",
          "Trusts the committed table (golden/PROVENANCE.json with sha256); pins the Rust reference only, not the TS/Python ports.", "4 C06"),
  "C03": ("lattice", "exploration", "exhaustive enumeration of all cell pairs of a face (planar clipping) + exhaustive containing-cell search for lattice points",
-         "For every resolution up to the bound: all same-face cell pairs clipped in the plane, interior points of every cell searched in all cells of the three nearest faces, every lattice point searched exhaustively (>=1 cell within the band, <=1 strictly), signed areas telescoping to 4 pi; at fine resolutions two-ring neighbourhoods found by lookup.",
+         "For every resolution up to the bound: all same-face cell pairs clipped in the plane, interior points of every cell searched in all cells of the three nearest faces, every lattice point searched exhaustively (>=1 cell within the band, <=1 strictly), signed areas telescoping to 4 pi; at fine resolutions two-ring neighbourhoods found by lookup. At fine resolutions the point must also be covered (no gap), incl. the frozen reference places of word-aligned cells.",
          "Cross-face containment goes through the real forward projection (C15). No-gap verdict is for lattice points; the measure identity bounds the rest.", "4 C03"),
  "C17": ("hilbert-automaton", "model_checking", "exhaustive enumeration of all curve positions to a depth bound x 6 orientations + explicit-state exploration of the digit-walk automaton bound by conformance",
-         "All s < 4^n (n<=9/12) for all six orientations on real outputs: pairwise distinct pentagons, centres in the quintant triangle, locating the centre returns s. The digit walk is modelled as a 16-state Mealy machine, compared bit for bit with the real s_to_anchor_internal on every position up to depth 8/10, and its pair automaton is explored for a non-injective witness, which covers every depth.",
+         "All s < 4^n (n<=9/12) for all six orientations on real outputs: pairwise distinct pentagons, centres in the quintant triangle, locating the centre returns s. The digit walk is modelled as a 16-state Mealy machine, compared bit for bit with the real s_to_anchor_internal on every position up to depth 8/10, and its pair automaton is explored for a non-injective witness, which covers every depth. A jumping-order pass visits all depths 1..29 on one thread in a non-monotone order with an unrelated walk between computing and locating each centre.",
          "The all-depth claim rests on the model; it is made only when conformance passes (otherwise the run reports model_bound=false and decides on real outputs only).", "3.4, 5 C17"),
  "C01": ("lattice", "exploration", "exhaustive enumeration of a fixed sphere lattice x all 30 resolutions against a containment oracle",
-         "Every point of a lattice built from the code's own case splits (12 faces, 30 edges, 20 vertices, sector seams, polar caps, antimeridian, every cell's vertices and edge midpoints with offsets down to 1e-9) is looked up at every resolution 0..29; the answer must be a canonical id of exactly that resolution whose planar polygon contains the point within a 4e-12 band, and for r<=12 whose reported boundary ring contains it (independent spherical test). Verdict is for the lattice, not the continuum.",
+         "Every point of a lattice built from the code's own case splits (12 faces, 30 edges, 20 vertices, sector seams, polar caps, antimeridian, every cell's vertices and edge midpoints with offsets down to 1e-9) is looked up at every resolution 0..29; the answer must be a canonical id of exactly that resolution whose planar polygon contains the point within a 4e-12 band, and for r<=12 whose reported boundary ring contains it (independent spherical test). Verdict is for the lattice, not the continuum. Plus call ladders: a lookup repeated after exactly 255..65537 identical lookups on one thread.",
          "Trusts the reference conversions (quadrature authalic latitude) and RefPlane distance; the planar oracle shares the forward projection with the subject, the spherical oracle only the public boundary call.", "4 C01"),
  "C02": ("lattice", "exploration", "exhaustive enumeration of all cells up to a resolution bound x a 51-point interior lattice, exact id equality",
-         "Centres of all cells r<=6/9 and a 51-point strict-interior lattice of all cells r<=4/7, of digit-pattern families to r=29 and of pole/antimeridian cells must look up to the same id.",
+         "Centres of all cells r<=6/9 and a 51-point strict-interior lattice of all cells r<=4/7, of digit-pattern families to r=29 and of pole/antimeridian cells must look up to the same id. Plus all ordered pairs (p1 then p2 on one thread) of the interior points of 30+ neighbourhoods spread over whole faces that miss their first estimate.",
          "Points are classified strict-interior through the real forward projection of what is passed to the API; finer resolutions on families only.", "4 C02"),
  "C04": ("lattice", "exploration", "exhaustive enumeration of all cells up to a resolution bound, independent spherical polygon area",
-         "Every cell r<=4/7 plus families to r=29 and pole/antimeridian cells: area measured from the reported boundary (32-64 segments per edge) with an independent spherical-polygon formula equals sphere/N within 1e-4; areas of a resolution sum to 4 pi; metadata table equals the quotient.",
+         "Every cell r<=4/7 plus families to r=29 and pole/antimeridian cells: area measured from the reported boundary (32-64 segments per edge) with an independent spherical-polygon formula equals sphere/N within 1e-4; areas of a resolution sum to 4 pi; metadata table equals the quotient. Plus fine cells (r>=24) cut by the break lines of the coordinate functions (octant meridians and parallels of the rotated frame, rays at multiples of 45 deg around face centres) and word-aligned cells.",
          "Trusts RefSphere area and the reference authalic conversion.", "4 C04"),
  "C11": ("lattice", "exploration", "exhaustive enumeration of all cells up to a resolution bound x 12 option combinations",
-         "Every cell r<=3/6 plus pole/antimeridian cells at every finer resolution and families x closed/open x n in {1,2,3,7,64,default}: length, closure, finiteness, latitude range, orientation, centre inside, longitude window, corner identity.",
+         "Every cell r<=3/6 plus pole/antimeridian cells at every finer resolution and families x closed/open x n in {1,2,3,7,64,default}: length, closure, finiteness, latitude range, orientation, centre inside, longitude window, corner identity. Plus the ring of the cell a lookup returns, drawn right after the lookup on the same fresh thread (corner, edge-midpoint and centre points of coarse cells at three resolutions each).",
          "Pole exemption decided on the n=64 ring with a 1e-3 cell-size margin.", "4 C11"),
  "C12": ("lattice", "exploration", "exhaustive enumeration of all parents up to a resolution bound with all children, planar clipping",
          "Every parent r<=4/7 and family parents to r=28 with all children: planar convex clipping shows shared interior, union cover > 1/2, centre distance <= 0.8 sqrt(parent area).",
@@ -45,32 +45,32 @@ CHECKS = {
          "Sphere lattice relative to nearest and second-nearest face of an independent regular dodecahedron, and a polar plane lattice on all 12 faces: inside/outside the face pentagon and round trips within 1e-12 / 1e-11.",
          "Lattice verdict only; the frame and pentagon are first-principles constructions.", "4 C15"),
  "C16": ("lattice", "exploration", "exhaustive enumeration of a plane lattice x subdivided probe triangles",
-         "Every lattice point of all 12 faces and of the reflected margin, on both sides of every seam and edge: spherical area of the unprojected probe / planar area equals 4 pi / (12 A_face) within 1e-4.",
+         "Every lattice point of all 12 faces and of the reflected margin, on both sides of every seam and edge: spherical area of the unprojected probe / planar area equals 4 pi / (12 A_face) within 1e-4. Ratios are signed (orientation must be preserved), the wedges beyond the reflected triangle next to the face vertices are probed, the public projection is used with a caller-supplied triangle before and after, and second-difference sweeps walk rays and arcs inside single triangles in equal steps (1e-7 / 2e-8 / 6e-10) requiring consecutive unprojected step lengths to agree within 1e-12.",
          "Probe discretisation error calibrated below 3e-6.", "4 C16"),
  "C18": ("lattice", "exploration", "exhaustive enumeration of face pairs, relabellings and a sphere lattice against an independent frame",
-         "12 base cells against a first-principles dodecahedron in the documented orientation, all 66 pairs, true angular argmin on the lattice, all 60 quintant<->segment relabellings both ways.",
+         "12 base cells against a first-principles dodecahedron in the documented orientation, all 66 pairs, true angular argmin on the lattice, all 60 quintant<->segment relabellings both ways. The relabellings are repeated through owned copies of every ordered pair of faces (dropped and re-created).",
          "Documented face numbering frozen in the reference.", "4 C18"),
  "C19": ("lattice", "exploration", "exhaustive enumeration of a dyadic latitude grid and a lon/lat grid",
-         "All 2^18+1 / 2^21+1 grid latitudes: round trip, closed-form WGS84 agreement, oddness, strict monotonicity between adjacent points; lon/lat <-> sphere round trip on a grid with lon in [-540, 540].",
+         "All 2^18+1 / 2^21+1 grid latitudes: round trip, closed-form WGS84 agreement, oddness, strict monotonicity between adjacent points; lon/lat <-> sphere round trip on a grid with lon in [-540, 540]. Latitude ladders: from_lon_lat at one rung followed by to_lon_lat at every other rung (steps 1e-12..1e-4 rad), all ordered pairs.",
          "Closed form (Snyder) and Gauss-Legendre quadrature references.", "4 C19"),
  # id: (engine, level category, technique, level text, level note, design ref)
  "C05": ("refmodel", "model_checking", "exhaustive reference-model conformance over all tuples (bounded resolution) and all short strings",
-         "Every (face, quintant, position, resolution) tuple up to a resolution bound is enumerated and the real encoder/decoder must agree bit for bit with an independent statement of the documented layout; injectivity by sorting all produced ids; hex semantics on all strings of length <= 3 over a 24-symbol alphabet and structured 64-bit values. Deeper resolutions are covered on structured positions only.",
+         "Every (face, quintant, position, resolution) tuple up to a resolution bound is enumerated and the real encoder/decoder must agree bit for bit with an independent statement of the documented layout; injectivity by sorting all produced ids; hex semantics on all strings of length <= 3 over a 24-symbol alphabet and structured 64-bit values. Deeper resolutions are covered on structured positions only. Every single-bit neighbour of ~2 000 valid ids is decoded, and every hierarchy call is made on it with every natural target after its valid neighbourhood was used; digit strings up to 1024 digits with long zero windows.",
          "Trusts the reference codec (40 lines of integer arithmetic written from the property text, with the per-face first-quintant table frozen).", "5 C05"),
  "C07": ("graph", "model_checking", "explicit-state BFS of the hierarchy graph through the real child/parent functions",
-         "Breadth-first search from the world cell where every edge is a real cell_to_children / cell_to_parent call; tree axioms are checked in every state and each level is compared with an independent enumeration. Exhaustive for all cells up to the resolution bound, digit-pattern families down to r=29.",
-         "Trusts RefCodec's enumeration of each resolution; fan-out above 4^8 per call is out of scope.", "5 C07"),
+         "Breadth-first search from the world cell where every edge is a real cell_to_children / cell_to_parent call; tree axioms are checked in every state and each level is compared with an independent enumeration. Exhaustive for all cells up to the resolution bound, digit-pattern families down to r=29. Beyond the bounds: exact lists for fan-outs of 4^9..4^12, every valid call right after every refused call, all ordered pairs of collision families of calls (cells differing in one component), expansion-key churn, and call ladders (exact gaps 255..65537).",
+         "Trusts RefCodec's enumeration of each resolution; fan-outs above 4^8 are checked on a fixed list of calls only.", "5 C07"),
  "C08": ("setmachine", "model_checking", "stateright explicit-state search of a cell-set machine + all subsets of small universes + all permutations",
-         "All cell multisets reachable by Split/Drop/AddAncestor/Dup (real hierarchy calls) up to a depth bound, all subsets of universes built to make ids collide with the numeric order, and all permutations of small sets; on each, expanding the compacted set must equal the reference cover, without duplicates and independent of order/multiplicity.",
-         "Trusts RefTree's cover(); bounded resolution (<=3), list length and depth.", "5 C08-C10"),
+         "All cell multisets reachable by Split/Drop/AddAncestor/Dup (real hierarchy calls) up to a depth bound, all subsets of universes built to make ids collide with the numeric order, and all permutations of small sets; on each, expanding the compacted set must equal the reference cover, without duplicates and independent of order/multiplicity. Beyond the machine bounds, structured families enumerated completely: every run [a,b) of 4096- and 65 536-leaf universes with a,b around the powers of 2 and 4 in leaf, mixed-resolution and overlapping forms and five reorderings; sets aliasing a sibling group modulo m*4^k; sets whose cardinality coincides with a whole level; call ladders.",
+         "Trusts RefTree's cover(); the state machine is bounded in resolution (<=3), list length and depth; longer inputs come from the structured families only.", "5 C08-C10"),
  "C09": ("setmachine", "model_checking", "stateright explicit-state search of a cell-set machine x every target resolution",
-         "Every reachable cell list x every target resolution: Err exactly when an input is finer, otherwise per-input blocks equal the reference descendants in input order.",
+         "Every reachable cell list x every target resolution: Err exactly when an input is finer, otherwise per-input blocks equal the reference descendants in input order. Beyond the machine bounds: length ladder 2..65 537 x 60+ position patterns over three resolution pools, all lists of length <=4 over a six-cell alphabet with repeats, windows of consecutive ids, outputs above 4^8 per input, collision/expansion call pairs and call ladders.",
          "Trusts RefTree descendants(); total fan-out bounded to 4^8.", "5 C08-C10"),
  "C10": ("setmachine", "model_checking", "stateright explicit-state search over non-overlapping cell sets + all subsets of interleaving universes",
-         "Every reachable non-overlapping set and every non-overlapping subset of the universes: compact equals the reference canonical compaction, contains no complete sibling group, and is idempotent.",
+         "Every reachable non-overlapping set and every non-overlapping subset of the universes: compact equals the reference canonical compaction, contains no complete sibling group, and is idempotent. Beyond the machine bounds: the same long runs and alias sets as C08 (non-overlapping forms) against the canonical compaction, and call ladders.",
          "Trusts RefCompact (bottom-up merging with hash sets).", "5 C08-C10"),
  "C20": ("graph", "model_checking", "exhaustive enumeration of all same-resolution id pairs and all subtrees up to a resolution bound",
-         "All cells up to the resolution bound in one sorted list; ancestor order on every adjacent pair at every level (adjacent pairs imply all pairs), every subtree as a contiguous id interval without foreign cells, siblings adjacent; base cells exempt and shown to interleave.",
+         "All cells up to the resolution bound in one sorted list; ancestor order on every adjacent pair at every level (adjacent pairs imply all pairs), every subtree as a contiguous id interval without foreign cells, siblings adjacent; base cells exempt and shown to interleave. Word-aligned ids join the deep neighbour pairs; all ordered pairs of collision-family calls on one thread must return the reference ancestors/descendants.",
          "Trusts RefCodec's prefix test for subtree membership.", "5 C07/C20"),
 }
 
